@@ -854,11 +854,22 @@ func init() {
 		Level: "exploration",
 		Rule: "plan shapes from a grammar (1-2 blocks x 1-2 sequences x 1-2 actions x {no checks, each single group at plan level, each single group at block level, all ten groups}) x field variants (ids growing or descending with the position, meta, group id, keys, delays, concurrency, tolerance -1/0/2, timeouts, retries, three request/response type pairs, one announcing its response as a pointer); " +
 			"for every shape: Create, Read, every single update kind on every object, Read of a never created id, Delete, Read of the deleted id; on a small plan ALL sequences of updates up to depth 3 (4) over {Running, Completed, Failed, reset, attempts [ok] / [err] / [response+err(wrapped), another response] / cleared} x every object, with a Read after every step; a Create that FAILS (request that cannot be encoded at every action position of every shape) leaves the id unreadable and non-existent; " +
-			"oracle: structural equality (nanosecond times, typed requests/responses, wrapped errors, order) with a reference copy mutated in lock step; for both vaults when the CosmosDB fake is available; distinct_nontrivial = cases other than the minimal plan without updates",
+			"oracle: structural equality (nanosecond times, typed requests/responses, wrapped errors, order) with a reference copy mutated in lock step; for both vaults when the CosmosDB fake is available; distinct_nontrivial = cases other than the minimal plan without updates; a process kill at every write-class system call of a Submit followed by the Delete of the same plan on a file-backed store (strace fault injection): after re-opening, the plan reads back complete or not at all, never hollowed out",
 		Assumptions: []string{"CosmosDB is exercised over the package's own fake client only; a disagreement there counts only when traced to package code", "for CosmosDB the order of the actions inside a group is not checked: it comes from the service evaluating ORDER BY c.pos, which the fake client ignores", "an empty non-nil Meta slice and a nil one are the same definition"},
-		Items:       func(tier string) []WorkItem { return shardItems("C13", 16) },
-		Enum:        enumC13,
+		Items:       func(tier string) []WorkItem { return append(shardItems("C13", 16), killItemsFor("C13")...) },
+		Enum: func(env *EnumEnv, it *WorkItem) *EnumResult {
+			if it.Enum == "kill" {
+				return enumKill(env, it)
+			}
+			return enumC13(env, it)
+		},
 		ReplayInput: func(env *EnumEnv, raw []byte) []*Violation {
+			var kc struct {
+				Kill *int `json:"kill"`
+			}
+			if err := jsonUnmarshal(raw, &kc); err == nil && kc.Kill != nil {
+				return replayKill("C13", *kc.Kill)
+			}
 			var fc struct {
 				FailedCreate *createFaultCase `json:"failedCreate"`
 			}
